@@ -1,6 +1,7 @@
 package props
 
 import (
+	"go/types"
 	"fmt"
 	"strings"
 
@@ -256,6 +257,12 @@ func C18(env *Env) {
 	r.Floor("C18/DEFAULT", 2)
 }
 
+// sameField: a is the address of the same field of the same object as b.
+func sameField(a *ssa.FieldAddr, b ssa.Value) bool {
+	fb, ok := b.(*ssa.FieldAddr)
+	return ok && a.Field == fb.Field && a.X == fb.X
+}
+
 // c18Bank: RTMR i of the quote becomes register i of the bank, for every i.
 func (env *Env) c18Bank() {
 	r := env.R
@@ -282,6 +289,39 @@ func (env *Env) c18Bank() {
 		return
 	}
 	st := stores[0]
+	// the pre-sized form: bank.RTMRs = make([]RTMR, len(rtmrs)) once, then one
+	// indexed assignment per iteration
+	var presized *ssa.Store
+	if mkv, ok := st.Val.(*ssa.MakeSlice); ok && pat.Len(pat.Is(rt))(e.Eval(mkv.Len, e.Root(fn)), pat.Bind{}) {
+		n := 0
+		for _, b := range fn.Blocks {
+			for _, in := range b.Instrs {
+				es, ok := in.(*ssa.Store)
+				if !ok {
+					continue
+				}
+				ia, ok := es.Addr.(*ssa.IndexAddr)
+				if !ok {
+					continue
+				}
+				x := ia.X
+				if u, ok := x.(*ssa.UnOp); ok {
+					if fa, ok := u.X.(*ssa.FieldAddr); ok && fa == st.Addr.(*ssa.FieldAddr) || ok && sameField(fa, st.Addr) {
+						x = mkv
+					}
+				}
+				if x == ssa.Value(mkv) {
+					n++
+					presized = es
+				}
+			}
+		}
+		if n != 1 {
+			r.Fail("C18/BANK", "single-append", where, fmt.Sprintf("the pre-sized replay bank must be filled by exactly one indexed assignment; found %d", n))
+			return
+		}
+		st = presized
+	}
 	r.OK("C18/BANK", "single-append", env.P.Pos(st.Pos()), "one store to bank.RTMRs")
 	// unconditional within the loop: the store's block dominates every latch of its loop
 	g := e.GraphOf(fn, e.Root(fn))
@@ -313,7 +353,11 @@ func (env *Env) c18Bank() {
 	v := e.Eval(st.Val, e.Root(fn))
 	it := iterFrom(pat.Const("0"), &loop)
 	okElem := false
-	if v.Op == flow.OpConcat && len(v.Args) >= 1 {
+	if presized != nil {
+		// bank.RTMRs[i] = {Index: i, Digest: Rtmrs[i]} at index i of the same loop
+		idx := e.Eval(presized.Addr.(*ssa.IndexAddr).Index, e.Root(fn))
+		okElem = it(idx, pat.Bind{}) && pat.Contains(pat.All(pat.StructField("Index", pat.Conv(it)), pat.StructField("Digest", pat.Op(flow.OpIndex, "", pat.Is(rt), it))))(v, pat.Bind{})
+	} else if v.Op == flow.OpConcat && len(v.Args) >= 1 {
 		el := v.Args[len(v.Args)-1]
 		// the appended element arrives as a one-element slice literal
 		s := el.String()
@@ -326,7 +370,13 @@ func (env *Env) c18Bank() {
 		r.Fail("C18/BANK", "index-digest-pairing", env.P.Pos(st.Pos()), "the appended register must be {Index: i, Digest: quote.TdQuoteBody.Rtmrs[i]} of one iteration; value is "+v.String())
 	}
 	// at most four
-	alts := e.EntryPaths(fn, flow.ModeErr)
+	mode := flow.ModeErr
+	if res := fn.Signature.Results(); res.Len() > 0 {
+		if b, ok := res.At(res.Len() - 1).Type().Underlying().(*types.Basic); ok && b.Kind() == types.Bool {
+			mode = flow.ModeTrue // the (bank, ok) form
+		}
+	}
+	alts := e.EntryPaths(fn, mode)
 	okMax := len(alts) > 0
 	for _, a := range alts {
 		// per element (index <= 3 inside the loop) or once, in front of it (len <= 4)
